@@ -33,7 +33,8 @@ RULE = ("Hypothesis-generated histories: an option table of 2..8 options drawn f
         "(Boolean, Boolean+Auto, Integer, SignedInteger, Port, TimeInterval, DataSize, Float, String, Filename, "
         "LineList, CommaList, RouterList, *PortLines) with generated initial values, then 1..6 rounds of "
         "0..5 local steps (assign scalar / assign list / assign [] / append / extend / insert / remove / pop / "
-        "setitem / pop-until-empty / read / needs_save() / an assignment that validation refuses - half of them "
+        "setitem / pop-until-empty / read / needs_save() / non-ASCII text for a String option (a save then fails "
+        "before sending; the text is corrected later) / an assignment that validation refuses - half of them "
         "right after a valid change of the same option -, attribute names in four spellings) each closed by a "
         "save() that the reference Tor accepts or refuses with 5xx, optionally followed by a second save(); "
         "plus 8 fixed scenarios; interpreted against a real TorConfig bootstrapped over a causal byte pipe from a "
@@ -62,6 +63,13 @@ ASSUMPTIONS = [
     "initial option states whose bootstrap *shape* is C11's subject are not generated here: multi-valued or "
     "defaulted-by-one-line port options, list options unset with a one-line default, empty comma lists",
     "a SETCONF that only clears options is written as bare keys or 'Key='; both forms are accepted",
+    "list elements may also be ints (0 included - SocksPort = [0], ORPort[0] = 0) in port and comma lists; they "
+    "are sent once per element like any other, compared by their str(); empty-string elements are not generated "
+    "(Tor reads 'Key=' as a request to clear)",
+    "non-ASCII text assigned to a String/Filename option (Tor takes UTF-8 there, txtorcon's control connection is "
+    "ASCII): save() may fail locally (raise or errback) - then nothing may have been written, and every pending "
+    "change is still 'changed since the last successful save': needs_save() stays True and the next save that can "
+    "be sent carries them all; if an implementation does send such a value the history ends, uncompared, counted",
     "refused assignments: values that neither Tor nor txtorcon's documented/tested validation can take (None or a "
     "word without digits for the Integer family, None or 'maybe' for Boolean+Auto, None or an int for a LineList) "
     "must raise; values Tor itself would accept ('4 KBytes', '10 MB', '1 hour', '1.5', 'auto', 'True', a bare str for "
@@ -97,6 +105,9 @@ def cases(draw, max_rounds=6):
             return {"op": "read", "o": o["name"], "case": draw(spell)}
         if kind == "assign_scalar":
             o = draw(st.sampled_from(scalars))
+            if o["type"] in ("String", "Filename") and draw(st.integers(0, 5)) == 0:
+                # text Tor takes (ContactInfo, paths) but the ASCII control connection of txtorcon cannot carry
+                return {"op": "assign", "o": o["name"], "v": draw(st.sampled_from(cm.NON_ASCII_VALUES)), "case": draw(spell)}
             return {"op": "assign", "o": o["name"], "v": draw(cm.assign_values(o["type"])), "case": draw(spell)}
         o = draw(st.sampled_from(lists))
         elem = cm.list_elements(o["type"])
@@ -127,6 +138,17 @@ def cases(draw, max_rounds=6):
     def chunk(draw):
         """One local step, or (one in six, if the table has an option with validation) an assignment that
         validation refuses - half of the time right after a valid change of the same option."""
+        texts = [o for o in scalars if o["type"] in ("String", "Filename")]
+        if texts and draw(st.integers(0, 11)) == 0:
+            # unsendable text, a save that therefore fails locally, the text corrected, a save that must carry all
+            o = draw(st.sampled_from(texts))
+            seq = [draw(step()) for _ in range(draw(st.integers(0, 2)))]
+            seq.append({"op": "assign", "o": o["name"], "v": draw(st.sampled_from(cm.NON_ASCII_VALUES)), "case": draw(spell)})
+            seq.append({"op": "save", "accept": True, "again": False})
+            seq += [draw(step()) for _ in range(draw(st.integers(0, 1)))]
+            seq.append({"op": "assign", "o": o["name"], "v": draw(cm.line_values()), "case": draw(spell)})
+            seq.append({"op": "save", "accept": draw(st.sampled_from([True, False])), "again": False})
+            return seq
         if not refusable or draw(st.integers(0, 5)):
             return [draw(step())]
         o = draw(st.sampled_from(refusable))
@@ -199,6 +221,7 @@ class _Run(object):
             self.opts[o["name"]] = _Opt(o["name"], o["type"], cm.initial_view(self.sim, o["name"]))
         self.n_boot = len(self.pipe.commands)
         self.inplace_done = 0
+        self.failed_locally = False
         self.rejected_with_pending = False
         self.rejected_then_accepted = False
         self.dead = False           # after a discrepancy that leaves model and code out of step
@@ -426,11 +449,42 @@ class _Run(object):
         if not s["accept"]:
             sim.reject_next(552, "Unrecognized option: the reference Tor was told to refuse this SETCONF")
         c0, s0 = len(pipe.commands), len(sim.setconfs)
+        unsendable = [m for m in touched if not m.is_list and isinstance(m.pending, str) and not m.pending.isascii()]
+        raised = None
         try:
             d = self.cfg.save()
         except Exception as e:
-            res.bad("save-raised", repr(e))
-            self.dead = True
+            raised = e
+            if not unsendable:
+                res.bad("save-raised", repr(e))
+                self.dead = True
+                return
+        if unsendable:
+            # a pending value the ASCII control connection cannot carry: save() cannot succeed; if it fails
+            # without sending, everything is still "changed since the last successful save"
+            w = Watch(d) if raised is None else None
+            pipe.pump()
+            sim.cancel_rejects()
+            if sim.setconfs[s0:]:
+                res.excluded.append("non-ascii-value-was-sent")      # how such bytes are to be encoded is not stated
+                self.dead = True
+                return
+            if raised is None and not w.failed:
+                res.bad("unsendable-save-not-reported", "pending %r, save() -> %r" % (
+                    [(m.name, m.pending) for m in unsendable], w.outcome()))
+                self.dead = True
+                return
+            res.label("save-failed-before-sending")
+            self.failed_locally = True
+            try:
+                still = self.cfg.needs_save()
+            except Exception as e:
+                still = "raised %r" % (e,)
+            if still is not True:
+                res.bad("changes-lost-when-save-failed-locally", "needs_save() = %r after save() %s; pending %r" % (
+                    still, ("raised %r" % (raised,)) if raised is not None else ("failed: %r" % (w.outcome(),)),
+                    [(m.name, m.pending) for m in must]))
+                self.dead = True
             return
         w = Watch(d)
         pipe.pump()
@@ -672,6 +726,19 @@ def _fixed_cases():
         {"op": "assign", "o": "NumCPUs", "v": 8, "case": 0}, sv(False, False), bad("NumCPUs", "no"), {"op": "needs_save"},
         sv(True), bad("NumCPUs", "x1"), {"op": "needs_save"}, sv(True),
         {"op": "assign", "o": "Log", "v": ["a", "b"], "case": 0}, bad("Log", None), sv(True)]}
+    # list elements given as numbers, 0 included
+    t3 = table + [O("DNSPort", "PortLines", value=["5353"])]
+    yield {"opts": t3, "echo": True, "steps": [
+        {"op": "assign", "o": "SocksPort", "v": [0], "case": 2}, sv(True),
+        {"op": "setitem", "o": "DNSPort", "i": 0, "v": 0, "case": 0}, {"op": "append", "o": "DNSPort", "v": 9443, "case": 0},
+        {"op": "append", "o": "LongLivedPorts", "v": 0, "case": 1}, sv(False, False), sv(True),
+        {"op": "read", "o": "DNSPort", "case": 0}]}
+    # text the ASCII control connection cannot carry: save() fails locally, nothing is lost
+    yield {"opts": t2, "echo": False, "steps": [
+        {"op": "assign", "o": "Nickname", "v": cm.NON_ASCII_VALUES[0], "case": 0},
+        {"op": "assign", "o": "NumCPUs", "v": 4, "case": 0}, {"op": "append", "o": "Log", "v": "info stdout", "case": 0},
+        sv(True, False), {"op": "needs_save"}, sv(True, False),
+        {"op": "assign", "o": "Nickname", "v": "Juergen", "case": 1}, sv(False, False), {"op": "needs_save"}, sv(True)]}
     yield {"opts": table, "steps": [
         {"op": "append", "o": "Log", "v": "info file /tmp/x y", "case": 1},
         {"op": "assign", "o": "NumCPUs", "v": "4", "case": 2}, sv(False), {"op": "needs_save"},
@@ -978,6 +1045,12 @@ def run(ctx):
 
 
 MUTANTS = [
+    ("falsy-list-elements-skipped", "txtorcon/torconfig.py",
+     "                    if x is not DEFAULT_VALUE:\n                        args.append(key)",
+     "                    if x and x is not DEFAULT_VALUE:\n                        args.append(key)"),
+    # needs fixes/C10-save-that-raises-loses-pending-changes.diff in the tree (undoes it)
+    ("failed-send-loses-pending-set", "txtorcon/torconfig.py",
+     "                self.__dict__['unsaved'] = sent\n                raise", "                raise"),
     # assignments refused by validation
     ("refused-assignment-drops-pending-change", "txtorcon/torconfig.py",
      "                value = self.parsers[name].validate(value, self, name)\n",
